@@ -42,7 +42,7 @@ class DbEngine(BaseEngine):
         env["VERIF_RUN_DIR"] = rundir
         lines = [c[1] for c in cases]
         try:
-            model_out = C.run_lines(os.path.join(C.RUNNER, "runner.exe"), lines)
+            model_out = C.run_lines(os.path.join(C.RUNNER, "runner.exe"), ["noop" if self.skip_model(c[0]) else c[1] for c in cases])
             impl = {}
             for prof in self.profiles:
                 impl[prof] = C.run_lines(C.harness_exe(prof), lines, env=env)
